@@ -13,7 +13,8 @@ for ob in r.obligations:
         print(ob.name, 'proved' if ob.proved else 'refuted' if ob.refuted else 'unknown', ' path:', ' '.join(ob.st.notes[-30:]))
         if ob.refuted and ob.verdict.model is not None:
             m, st = ob.verdict.model, ob.st
-            env = dict(eng.unit_env)
+            env = dict(ob.st.loc)
+            env.update(eng.unit_env)
             if getattr(ob, 'exc', None) is not None:
                 env['exc'] = ob.exc
                 print('  escaping:', verify.class_name_of(eng, m, st, ob.exc.term))
